@@ -530,6 +530,48 @@ class Checker:
         rep.floor('R12.8', 'comparison returns of tm.__eq__', n, 1)
 
 
+    def r129(self):
+        """Wrench(payload, position_applied, frame_applied): a Screw payload brings its own frame, a raw payload gets the IDENTITY frame unless
+        the third slot is given.  Inside class Wrench every payload comes from self (self.data, results of the inherited operators), so a
+        raw payload wrapped without `self.frame_applied` in the frame slot yields an object whose recorded frame is not the frame its
+        coordinates are expressed in."""
+        from ..engine.paths import paths_of
+        rep = self.rep
+        rep.rule('R12.9', 'Wrench(...) calls inside class Wrench: the payload is known to be a Screw (its frame is adopted) or the frame slot carries '
+                          'self.frame_applied - on every path')
+        n = 0
+        for name, fi in sorted(self.wrench.methods.items()):
+            try:
+                ps = paths_of(fi.node, fi.params)
+            except RuntimeError:
+                continue
+            seen = set()
+            for pth in ps:
+                for ev in pth.calls(lambda t: t == 'Wrench'):
+                    args = list(ev[2])
+                    if not args:
+                        continue
+                    a0 = args[0]
+                    pos = [a for a in args if '=' not in a.split('(')[0]]
+                    kws = {a.split('=', 1)[0]: a.split('=', 1)[1] for a in args if '=' in a.split('(')[0]}
+                    is_screw = a0.startswith('super().') or a0.startswith('Screw(') or a0.startswith('Wrench(') \
+                        or any(v and k.replace(' ', '') in ('isinstance(%s,Screw)' % a0, 'isinstance(%s,Wrench)' % a0, 'isinstance(%s,(Screw,Wrench))' % a0)
+                               for k, v in pth.facts.items())
+                    frame = kws.get('frame_applied', pos[2] if len(pos) >= 3 else None)
+                    ok = is_screw or (frame is not None and 'frame_applied' in frame)
+                    key = (ev[3], ok)
+                    if key in seen:
+                        continue
+                    seen.add(key)
+                    n += 1
+                    rep.ob('R12.9', fi, '%s: Wrench(%s)' % (name, ', '.join(args)[:60]), ok,
+                           'on a path where `%s` is not known to be a Screw, %s wraps it as Wrench(%s): the frame slot (third argument) is %s, so the result records '
+                           'the identity frame while its coordinates are still expressed in self.frame_applied - every later operation with an object in the true '
+                           'frame applies a spurious frame change ((s + w) - w != s for a wrench in a non-identity frame)'
+                           % (a0[:40], name, ', '.join(args)[:60], 'missing' if frame is None else frame[:30]), line=ev[3])
+        rep.floor('R12.9', 'Wrench(...) calls in class Wrench', n, 2)
+
+
 def _num(e):
     try:
         v = const_value(e)
@@ -620,6 +662,7 @@ def check(model, rep):
     ck.r123()
     ck.r124()
     ck.r128()
+    ck.r129()
     from .c02 import closure_obligations
     tmcls = model.cls('basic_robotics.general.faser_transform', 'tm')
     helpers = [f for f in model.funcs_in('basic_robotics.general.basic_helpers') if f.name in ('globalToLocal', 'localToGlobal')]
